@@ -166,6 +166,15 @@ pub fn build_tree(rng: &mut Lcg) -> Tree {
         std::fs::write(root.join("limit.bin"), &content).unwrap();
         files.insert("limit.bin".to_string(), content);
     }
+    // one tree in sixteen holds a file of 5 MiB + 3 bytes (seed C06-16: the tokio handlers filled a buffer of the file's
+    // size with a single read, which hands out at most 2 MiB; "returned intact" has no size limit)
+    if rng.next() % 16 == 0 && !files.contains_key("big.bin") {
+        let mut content = format!("FILE[big.bin]#{}|", rng.next()).into_bytes();
+        let extra = rng.bytes((5 << 20) + 3 - content.len());
+        content.extend(extra);
+        std::fs::write(root.join("big.bin"), &content).unwrap();
+        files.insert("big.bin".to_string(), content);
+    }
     if like_routes {
         for rel in ["a.txt", "files/a.txt", "files/files/a.txt", "static/a.txt", "s/a.txt"] {
             if !files.contains_key(rel) {
